@@ -13,7 +13,7 @@ import (
 
 func init() {
 	register("C02", Meta{
-		Explanation: "Structural necessary conditions of the attestation quorum: (signer-bonded) the function that resolves a message signer to a validator returns without error only on paths where the staking validator is non-nil and IsBonded() is true, and the value it returns is that validator's operator; the vote-record append is reachable only through the non-error result of that resolver and appends the resolved validator; (one-vote) the single append to ExternalEventVoteRecord.Votes is cut off from the entry by 'event nonce == last+1 or last == 0' with last the per-validator nonce of the same validator, and the per-validator nonce is stored with the event's nonce on every success path after it; (quorum-guard) the call that applies an event is guarded by votePower.GTE/GT(required) with required built from StakingKeeper.GetLastTotalPower by constants A,B with A/B >= 66/100 and votePower a loop-carried sum that adds exactly one GetLastValidatorPower result per vote; (votes-writers) the vote-record prefix is written only by the vote function, the tally function and InitGenesis.",
+		Explanation: "Structural necessary conditions of the attestation quorum: (identity) the clauses of C14 that make the claim identifier separate differing reports are re-checked here, since votes are pooled per identifier; (key-shape) every parameter of the vote-record and per-validator-nonce key constructors reaches the key; (signer-bonded) the function that resolves a message signer to a validator returns without error only on paths where the staking validator is non-nil and IsBonded() is true, and the value it returns is that validator's operator; the vote-record append is reachable only through the non-error result of that resolver and appends the resolved validator; (one-vote) the single append to ExternalEventVoteRecord.Votes is cut off from the entry by 'event nonce == last+1 or last == 0' with last the per-validator nonce of the same validator, and the per-validator nonce is stored with the event's nonce on every success path after it; (quorum-guard) the call that applies an event is guarded by votePower.GTE/GT(required) with required built from StakingKeeper.GetLastTotalPower by constants A,B with A/B >= 66/100 and votePower a loop-carried sum that adds exactly one GetLastValidatorPower result per vote; (votes-writers) the vote-record prefix is written only by the vote function, the tally function and InitGenesis.",
 		NotDecided:  []string{">=66% as an arithmetic fact for every power vector (truncating 66*T/100 under-approximates by less than one power unit)", "powers changing between vote and tally (only: powers are read at tally time)", "behaviour of the staking module"},
 		Assumptions: commonAssumptions,
 	}, checkC02)
@@ -127,6 +127,7 @@ func (c *Ctx) resolverCalls(fn *ssa.Function) []*ssa.Call {
 }
 
 func checkC02(c *Ctx) {
+	c.checkKeyMakers("C02", 2)
 	p, r := c.P, c.R
 	roots := c.Roots()
 	reach := c.ConsensusReach()
@@ -192,7 +193,7 @@ func checkC02(c *Ctx) {
 	}
 
 	// ---- C02.one-vote -----------------------------------------------------------
-	r.Min("C02.one-vote", 3)
+	r.Min("C02.one-vote", 5)
 	if len(appends) != 1 {
 		r.Bad("C02.one-vote", "append-count", "-", sprintf("%d appends to ExternalEventVoteRecord.Votes in message/block code, expected exactly one", len(appends)))
 	}
@@ -200,9 +201,17 @@ func checkC02(c *Ctx) {
 		c.checkContiguity("C02.one-vote", st)
 	}
 
+	c.checkNonceWriters("C02.one-vote", appends)
+
 	// ---- C02.quorum-guard -----------------------------------------------------
 	r.Min("C02.quorum-guard", 3)
 	c.checkQuorumGuard("C02.quorum-guard", reach, func(f *ssa.Function) bool { return c.isProcessFn(f, "mhub2") }, "Votes", 66, 100)
+
+	// ---- C02.identity (clauses of C14) ------------------------------------------
+	// votes are pooled per claim identifier: the quorum is a quorum for one event only if reports that differ in
+	// anything that matters get different identifiers
+	r.Min("C02.identity", 30)
+	c.include("identity", "C14", rulesIn("C14.coverage", "C14.injective"))
 
 	// ---- C02.votes-writers ----------------------------------------------------
 	r.Min("C02.votes-writers", 3)
@@ -552,4 +561,31 @@ func parseThreshold(ex string) (a, b int64, ok bool) {
 	a, _ = strconv.ParseInt(as, 10, 64)
 	b, _ = strconv.ParseInt(m[5], 10, 64)
 	return a, b, true
+}
+
+
+// checkNonceWriters: the per-validator nonce is what makes a second vote impossible: only the vote function
+// (with the event's nonce, see nonce-stored) and the genesis import may write it; any other writer can rewind it.
+func (c *Ctx) checkNonceWriters(rule string, appends []*ssa.Store) {
+	p, r := c.P, c.R
+	ws := c.Writers(c.LiveReach(), "", "LastEventNonceByValidatorKey")
+	for _, f := range sortedKeys(ws) {
+		wr := false
+		for _, e := range ws[f] {
+			if e.Store.IsWrite() {
+				wr = true
+			}
+		}
+		if !wr {
+			continue
+		}
+		isVote := false
+		for _, st := range appends {
+			if ana.Outermost(st.Parent()) == f {
+				isVote = true
+			}
+		}
+		r.Check(isVote || c.isGenesisImport(f), rule, "nonce-writer:"+fname(f), p.Pos(f.Pos()), "the per-validator event nonce is written by the vote function / genesis import",
+			"the per-validator last event nonce is written outside the vote function and the genesis import: a validator whose counter is rewound can vote again for a nonce it already voted for")
+	}
 }
